@@ -568,7 +568,56 @@ var Scenarios = []Directed{
 		tx = s.TxTransfer(6, 5, new(big.Int).Sub(bal, fee).String())
 		s.expect(OK(s.Deliver(tx, 6, "transfer:fundsexact")), "exact funds")
 		s.End()
+		s.Begin(allHdr)
+		// a fee of 2^61 x 10 (more than 64 bits): the sender pays it, the proposer receives it
+		txb := s.TxTransfer(5, 4, "1e18")
+		txb.Gas = 1 << 61
+		s.expect(OK(s.Deliver(txb, 5, "transfer:fee>2^64")), "a fee above 2^64 is paid in full")
+		s.expect(OK(s.Transfer(4, 5, "1e18")), "an ordinary fee in the same block")
+		s.End()
+		// the balance in the window amount <= balance < amount + fee, for every type that moves value
+		set := func(a int, target *big.Int) { // leave account a with exactly `target` (it pays the fee of this transfer too)
+			cur := FromLimbs(s.View().Accts[fmt.Sprintf("a%d", a)].Bal)
+			out := new(big.Int).Sub(new(big.Int).Sub(cur, fee), target)
+			if out.Sign() > 0 {
+				s.expect(OK(s.Transfer(a, 4, out.String())), "set-up transfer")
+			}
+		}
+		e18 := func(k int64) *big.Int { return new(big.Int).Mul(big.NewInt(k), E18) }
+		s.Begin(allHdr)
+		s.expect(OK(s.Transfer(4, 6, "10e18")), "fund a6 (it was drained above)")
+		set(6, new(big.Int).Add(e18(3), big.NewInt(50))) // 3e18 + 50: enough for the amount, not for amount + fee (100)
+		s.expect(!OK(s.Stake(6, 1, "3e18")), "staking with balance between amount and amount + fee fails")
+		s.expect(!OK(s.Stake(6, 6, "3e18")), "self-staking likewise")
+		s.expect(!OK(s.Transfer(6, 5, "3e18")), "transfer likewise")
+		s.expect(OK(s.Transfer(5, 6, "50")), "top up to exactly amount + fee")
+		s.expect(OK(s.Stake(6, 1, "3e18")), "staking with exactly amount + fee succeeds")
+		s.expect(OK(s.Transfer(4, 5, "1e18")), "a bystander's transfer afterwards")
+		s.End()
 		s.Blocks(1, allHdr)
+	}},
+	{"voter_leaves_set", []string{"C15", "C10"}, fam(3), func(s *Script) {
+		// four validators of power 100; a recorded voter leaves the validator set (it unstakes) after the proposal was
+		// submitted and votes inside the window: its vote counts with the recorded power; a validator that joined later may not vote
+		s.Blocks(3, allHdr)
+		s.Begin(allHdr) // 4
+		s.expect(OK(s.Propose(1, 6, 5, 14, `{"slashRatio":"30"}`)), "proposal (voters: the four validators)")
+		s.End()
+		p := s.Proposals()
+		s.Begin(allHdr) // 5
+		s.expect(OK(s.Unstake(4, 4, s.StakeIDs(4, 4)[0])), "a4 leaves (its removal reaches the consensus engine two blocks later)")
+		s.expect(OK(s.Stake(5, 5, "150e18")), "a5 becomes a validator after the snapshot")
+		s.End()
+		s.Blocks(3, Hdr{}) // 6, 7, 8
+		s.Begin(allHdr)    // 9: inside the window, a4 is no validator any more
+		if len(p) == 1 {
+			s.expect(OK(s.Vote(4, p[0], 0)), "the recorded voter that left the set votes")
+			s.expect(OK(s.Vote(1, p[0], 0)), "a1 votes")
+			s.expect(!OK(s.Vote(5, p[0], 0)), "the newcomer is no recorded voter")
+			s.expect(OK(s.Vote(2, p[0], 0)), "a2 votes: 300 of 400")
+		}
+		s.End()
+		s.Blocks(8, allHdr)
 	}},
 	{"nonce_replay", []string{"C04", "C05"}, fam(0), func(s *Script) {
 		s.Blocks(2, allHdr)
